@@ -271,7 +271,14 @@ pub fn check_case(schema: &str, op: &str, frag: &str, config: &str) -> Vec<Viola
     }
     let schema_files = vec![("/proj/schema.graphql".to_string(), schema.to_string())];
     let op_files = vec![("/proj/op.graphql".to_string(), op.to_string()), ("/proj/frag.graphql".to_string(), frag.to_string())];
-    let r = run_project(&ProjectInput { schema_files: &schema_files, op_files: &op_files, config, generate: false, check_only: false });
+    // An unused fragment that spreads itself is the listed finding whose effect is a stack overflow in `generate`: it
+    // would kill this engine process and lose the rest of its workload (its committed repro is replayed on its own by
+    // `check`). Such inputs go through every stage up to and including `check` only.
+    let killer = [op, frag].iter().any(|t| unused_recursive_fragment_in_text(t));
+    if killer {
+        KILLER_SKIPS.with(|c| c.set(c.get() + 1));
+    }
+    let r = run_project(&ProjectInput { schema_files: &schema_files, op_files: &op_files, config, generate: false, check_only: killer });
     for (stage, p) in &r.panics {
         let mut v = mk(stage, p);
         if p.site().starts_with("crates/printer/") {
@@ -349,7 +356,9 @@ pub fn check_cli(ctx: &Ctx, n: u64, schema: &str, op: &str, frag: &str, config: 
     let files = vec![("schema.graphql".to_string(), schema.to_string()), ("op.graphql".to_string(), op.to_string()), ("frag.graphql".to_string(), frag.to_string()), ("graphql.config.yaml".to_string(), config.to_string())];
     let mut out = vec![];
     if cli::write_project(&dir, &files).is_ok() {
-        let r = cli::run_cli(&ctx.cli, &dir, &["generate", "--output-format", "json"], Duration::from_secs(60));
+        // (the listed finding's killer shape is taken through `check` only, as in the library part)
+        let killer = [op, frag].iter().any(|t| unused_recursive_fragment_in_text(t));
+        let r = cli::run_cli(&ctx.cli, &dir, &[if killer { "check" } else { "generate" }, "--output-format", "json"], Duration::from_secs(60));
         if r.status == Some(0) && r.panicked().is_none() {
             CLI_OK.with(|c| c.set(c.get() + 1));
         }
@@ -657,6 +666,7 @@ pub fn run(ctx: &Ctx, rep: &mut Report) {
         }
     }
     rep.add("cli_runs_where_generate_completed", CLI_OK.with(|c| c.get()));
+    rep.add("inputs_checked_without_printers(unused recursive fragment: listed finding)", KILLER_SKIPS.with(|c| c.get()));
     rep.note("stages observed per input: both parsers on every text, parse_config, resolve_schema_extensions, check_type_system_document, resolve_operation_extensions/imports, check_operation_document, and after an accepted check all printers; print_positioned_error on every diagnostic; schema_from_introspection_json on arbitrary text");
 }
 
@@ -673,6 +683,10 @@ pub fn run_loader(ctx: &Ctx, rep: &mut Report) {
         rep.count(&format!("loader_inputs|{kind}"));
         rep.nontrivial(&format!("L{op}\u{1}{frag}\u{1}{config}"));
         // the same parser-step budget as in the library part (the loader links the same pest instance)
+        if unused_recursive_fragment_in_text(&op) || unused_recursive_fragment_in_text(&frag) {
+            rep.count("loader_inputs_skipped(unused recursive fragment: listed finding)");
+            continue;
+        }
         let longest = op.len().max(frag.len());
         pest::set_call_limit(std::num::NonZeroUsize::new(PARSER_STEPS_PER_BYTE * longest + PARSER_STEPS_BASE));
         let texts = loader_case(&op, &frag, &config);
@@ -735,6 +749,18 @@ fn spreads_of(ss: &crate::model::SelSet, out: &mut Vec<String>) {
             crate::model::Sel::Spread { name, .. } => out.push(name.s.clone()),
             crate::model::Sel::Inline { sels, .. } => spreads_of(sels, out),
         }
+    }
+}
+
+thread_local! {
+    /// inputs whose printers were not run because they carry the listed finding's killer shape
+    pub static KILLER_SKIPS: std::cell::Cell<u64> = const { std::cell::Cell::new(0) };
+}
+
+pub fn unused_recursive_fragment_in_text(text: &str) -> bool {
+    match crate::refparse::parse_exec(text) {
+        Ok(d) => has_unused_recursive_fragment(&d),
+        Err(_) => crate::refparse::parse_exec(&text.replace("#import", "#_mport")).map(|d| has_unused_recursive_fragment(&d)).unwrap_or(false),
     }
 }
 
